@@ -72,7 +72,7 @@ def count_specs(tier: str):
 
 
 def specs(tier: str):
-    out = count_specs(tier)
+    out = count_specs(tier) + [sp for sp in families.extra_specs("zero", tier) if sp.family.startswith("newline(none)")]
     for n, exact, L, silent in BOUNDS[tier]:
         ins = families.inputs(families.SIGMA_CORE, L)
         for body in families.core_exprs(n, exact=exact):
@@ -87,6 +87,7 @@ def run(tier: str) -> int:
                               rule="every expression with <= n nodes over terminals {\"a\",\"b\",\"ab\",^\"a\",'a'..'b',ANY,EOI,SOI,ASCII_HEX_DIGIT (a built-in made of several ranges),n,s} (n = {\"a\"}, s = _{ n ~ \"b\" }), "
                                    "unary operators ( ) ? * + {2} {1,} {,2} {1,2} & ! and binary ~ |, filtered for well-formedness (no repetition over a nullable operand), "
                                    "as the body of a normal start rule r and a silent start rule q, x every string over {a,b,A} up to length L, in mode IU, against the reference model; "
+                                   "plus every expression with <= 2 nodes over {NEWLINE, \"a\", \"\\n\", ANY} on every string over {a, \\r, \\n} up to length 4; "
                                    f"plus the counts family: every bound {{m}} {{m,}} {{,n}} {{m,n}} up to {COUNTS[tier][0]} over every non-nullable terminal, (n ~ \"b\") and (\"ab\" | \"a\") (thorough: every non-nullable operand of <= 2 nodes), alone / followed by \"a\" / followed by EOI / in an abandoned alternative, inputs up to length {COUNTS[tier][1]}; "
                                    "a case is non-trivial when the reference run backtracked at least once or returned at least one pair")
 
